@@ -58,7 +58,8 @@ ValsFn(vs) == [id \in {vs[i][1] : i \in 1..Len(vs)} |-> (CHOOSE i \in 1..Len(vs)
 WeightsOf(vs) == LET ix == ValsFn(vs) IN [id \in DOMAIN ix |-> vs[ix[id]][2]]
 
 \* ---------------------------------------------------------------- graph definitions
-ForkSeenIn(A, evf, v) == \E x \in A, y \in A : x < y /\ evf[x].cr = v /\ evf[y].cr = v /\ evf[x].sq = evf[y].sq
+\* two different events of v with the same sequence number among A  (evaluated as: fewer distinct sequence numbers than events)
+ForkSeenIn(A, evf, v) == LET Av == {x \in A : evf[x].cr = v} IN Cardinality({evf[x].sq : x \in Av}) < Cardinality(Av)
 
 \* an event with ancestry A and visible forkers F is forkless-caused by b
 FCs(A, F, b, evf, ancf) ==
